@@ -752,7 +752,7 @@ func (c *canon) aliases(body *ast.BlockStmt) map[types.Object]ast.Expr {
 		ast.Inspect(r, func(n ast.Node) bool {
 			if id, ok := n.(*ast.Ident); ok {
 				if u, ok := c.info.Uses[id].(*types.Var); ok && !u.IsField() && u.Pkg() != nil && u.Parent() != u.Pkg().Scope() {
-					if disqDirect(c.info, body, u) {
+					if writtenAfter(c.info, body, u, r.Pos()) {
 						okVars = false
 					}
 				}
@@ -768,37 +768,62 @@ func (c *canon) aliases(body *ast.BlockStmt) map[types.Object]ast.Expr {
 	return out
 }
 
-// disqDirect: the variable itself (not a field of it) is assigned after its definition.
-func disqDirect(info *types.Info, body *ast.BlockStmt, v *types.Var) bool {
-	written := false
+// writtenAfter: the variable itself (not a field of it) is assigned at a source position after pos, or
+// anywhere inside a loop that encloses pos (where "after" can come round again).
+func writtenAfter(info *types.Info, body *ast.BlockStmt, v *types.Var, pos token.Pos) bool {
+	var writes []token.Pos
+	note := func(e ast.Expr) {
+		if id, ok := ast.Unparen(e).(*ast.Ident); ok && (info.Uses[id] == v || info.Defs[id] == v) {
+			writes = append(writes, id.Pos())
+		}
+	}
+	var loops [][2]token.Pos
 	ast.Inspect(body, func(n ast.Node) bool {
 		switch x := n.(type) {
 		case *ast.AssignStmt:
 			for _, l := range x.Lhs {
-				if id, ok := ast.Unparen(l).(*ast.Ident); ok && info.Uses[id] == v {
-					written = true
+				if id, ok := ast.Unparen(l).(*ast.Ident); ok && info.Defs[id] == v && x.Tok == token.DEFINE {
+					continue // the definition itself
 				}
+				note(l)
 			}
 		case *ast.IncDecStmt:
-			if id, ok := ast.Unparen(x.X).(*ast.Ident); ok && info.Uses[id] == v {
-				written = true
+			note(x.X)
+		case *ast.UnaryExpr:
+			if x.Op == token.AND {
+				note(x.X)
 			}
 		case *ast.RangeStmt:
-			for _, kv := range []ast.Expr{x.Key, x.Value} {
-				if id, ok := kv.(*ast.Ident); ok && (info.Uses[id] == v || info.Defs[id] == v) {
-					written = true
-				}
+			if x.Key != nil {
+				note(x.Key)
+			}
+			if x.Value != nil {
+				note(x.Value)
+			}
+			if x.Pos() <= pos && pos <= x.End() {
+				loops = append(loops, [2]token.Pos{x.Pos(), x.End()})
 			}
 		case *ast.ForStmt:
 			if as, ok := x.Init.(*ast.AssignStmt); ok {
 				for _, l := range as.Lhs {
-					if id, ok := l.(*ast.Ident); ok && info.Defs[id] == v {
-						written = true
-					}
+					note(l)
 				}
 			}
+			if x.Pos() <= pos && pos <= x.End() {
+				loops = append(loops, [2]token.Pos{x.Pos(), x.End()})
+			}
 		}
-		return !written
+		return true
 	})
-	return written
+	for _, w := range writes {
+		if w > pos {
+			return true
+		}
+		for _, l := range loops {
+			if l[0] <= w && w <= l[1] {
+				return true
+			}
+		}
+	}
+	return false
 }
